@@ -528,8 +528,11 @@ def _mentions(atom, lv):
         before = atom[i - 1] if i > 0 else " "
         after = atom[i + len(lv)] if i + len(lv) < len(atom) else " "
         if not (before.isalnum() or before == "_") and not (after.isalnum() or after == "_"):
-            # a longer member chain continuing (lv = "mod", atom has "mod->x") counts as a mention as well
-            return True
+            # a longer member chain continuing (lv = "mod", atom has "mod->x") counts as a mention as well;
+            # a *field* of that name (x->lv, x.lv) is not a mention of the variable lv
+            is_field = (before == ">" and i >= 2 and atom[i - 2] == "-") or before == "."
+            if not is_field:
+                return True
         i = atom.find(lv, i + 1)
     return False
 
